@@ -186,6 +186,11 @@ func TestVerifC13(t *testing.T) {
 			for i := 0; i < cnt; i++ {
 				n := 1 + (i+int(seed))%5
 				base := c13Base(a.name, a.mule, n, rng.intn(12))
+				if i%5 == 4 {
+					// a second convergence sender to the first peer (another address, the same endpoint ID): the
+					// algorithm must serve the peer once
+					base.peers = append(base.peers, nPeer{n + 1, base.peers[0].eid})
+				}
 				base.oracle = nRandomOracle(base, rng, 15+rng.intn(60))
 				alpha := nAlphabet(base, a.mule)
 				// receptions, peer changes and retries dominate; weight by repetition
